@@ -5,7 +5,8 @@ import ast
 
 from fdlstatic import cfg as cfg_lib
 from fdlstatic.ctx import Ctx
-from fdlstatic.model import AnalysisError, unparse, walk_function
+from fdlstatic import roles
+from fdlstatic.model import AnalysisError, norm_text, unparse, walk_function
 from fdlstatic.nullness import NullAnalysis
 from fdlstatic.report import RuleSet
 from fdlstatic.rules import sigrules
@@ -108,9 +109,295 @@ def compaction_source(ctx: Ctx, rs: RuleSet):
              'deletions) the tail holds the wrong values', ctx.loc(f, c))
 
 
+def _raising_if_nodes(g):
+  """if-nodes whose true branch always leaves by raise."""
+  out = []
+  for n in g.nodes():
+    if g.kind[n] == 'if':
+      r = g.reach([m for m, lab in g.succ[n] if lab == 'true'],
+                  labels=cfg_lib.NO_EXC)
+      if g.exit not in r and g.raise_exit in r:
+        out.append(n)
+  return out
+
+
+def _bound_atoms(test):
+  """(index name, op class, bound text) atoms `i >= N` / `i < 0` ... of a test,
+
+  normalised so that the index is on the left.
+  """
+  flip = {ast.Lt: ast.Gt, ast.Gt: ast.Lt, ast.LtE: ast.GtE, ast.GtE: ast.LtE}
+  out = []
+  for c in ast.walk(test):
+    if isinstance(c, ast.Compare):
+      operands = [c.left] + list(c.comparators)
+      for (a, op, b) in zip(operands, c.ops, operands[1:]):
+        if type(op) not in flip:
+          continue
+        if isinstance(a, ast.Name):
+          out.append((a.id, type(op), unparse(b)))
+        if isinstance(b, ast.Name):
+          out.append((b.id, flip[type(op)], unparse(a)))
+  return out
+
+
+def index_bounds(ctx: Ctx, rs: RuleSet):
+  """BOUND: the list-like positional view rejects indices outside
+
+  [0, len): the comparison operators are the inclusive / exclusive ones a
+  Python list uses.
+  """
+  rule = 'BOUND.index-range'
+  rs.declare(rule, 'positional indices are checked against [0, length) with '
+             'the operators a list uses, before anything is modified', 4)
+  # (1) _set_item_by_index: `key >= <number of positional slots>` raises
+  f = ctx.func(f'{BUILDABLE}._set_item_by_index')
+  g = ctx.cfg(f)
+  key = f.params[1]
+  counts = roles.assigned_from(f, lambda e: isinstance(e, ast.Attribute) and
+                               e.attr == 'var_positional_start')
+  ok = False
+  detail = 'no raising upper-bound test on the index found'
+  for n in _raising_if_nodes(g):
+    for name, op, bound in _bound_atoms(g.stmt[n].test):
+      if name == key and bound in counts:
+        ok = op is ast.GtE
+        detail = (f'`{key} >= {bound}` raises IndexError' if ok else
+                  f'the upper-bound test on `{key}` uses '
+                  f'{"`>`" if op is ast.Gt else op.__name__} against the slot '
+                  f'count `{bound}`: the index one past the last slot is '
+                  'accepted and stored under a stray integer key')
+  rs.check(ok, rule, f'{f.qualname}:upper-bound', detail, ctx.loc(f, f.node))
+  # the slot count without *args counts positional parameters only
+  ok = False
+  for st in walk_function(f.node):
+    if isinstance(st, ast.Assign) and any(
+        isinstance(t, ast.Name) and t.id in counts for t in st.targets) and (
+            not (isinstance(st.value, ast.Attribute))):
+      kinds = {x.attr for x in ast.walk(st.value) if isinstance(x, ast.Attribute)}
+      ok = {'POSITIONAL_ONLY', 'POSITIONAL_OR_KEYWORD'} <= kinds and not (
+          {'KEYWORD_ONLY', 'VAR_KEYWORD'} & kinds)
+  rs.check(ok, rule, f'{f.qualname}:slot-count',
+           'without *args the number of indexable slots is the number of '
+           'positional-only and positional-or-keyword parameters' if ok else
+           'without *args the slot count is not restricted to positional '
+           'parameter kinds: a keyword-only parameter is addressable by index '
+           'and the value is stored under a stray integer key',
+           ctx.loc(f, f.node))
+  # (2) index_to_key: a negative index that stays negative after adding the
+  # length raises (no wrap-around)
+  f = ctx.func(f'{SIGINFO}.index_to_key')
+  g = ctx.cfg(f)
+  idx = f.params[1]
+  neg_ifs = [n for n in g.nodes() if g.kind[n] == 'if' and (
+      idx, ast.Lt, '0') in _bound_atoms(g.stmt[n].test)]
+  raising = set(_raising_if_nodes(g))
+  norm = [n for n in g.nodes() if isinstance(g.stmt[n], ast.AugAssign) and
+          unparse(g.stmt[n].target) == idx]
+  ok = bool(norm) and any(
+      m in raising and g.dominated_by(m, set(norm), labels=cfg_lib.NO_EXC)
+      for m in neg_ifs)
+  rs.check(ok, rule, f'{f.qualname}:negative',
+           'after `index += len(args)` a still-negative index raises '
+           'IndexError' if ok else
+           'a negative index is normalised with += len(...) but never '
+           'rejected when it stays negative: params[index] then wraps around '
+           'and the edit lands on another parameter', ctx.loc(f, f.node))
+  # (3) __delitem__ with an int key: range-checked before any deletion
+  f = ctx.func(f'{BUILDABLE}.__delitem__')
+  g = ctx.cfg(f)
+  key = f.params[1]
+  views = roles.assigned_from(
+      f, roles.call_of('transform_to_args_kwargs'), position=0)
+  dels = [n for n in g.nodes() if any(
+      isinstance(e, ast.Call) and isinstance(e.func, ast.Attribute) and
+      e.func.attr == '_arguments_del_value'
+      for e in cfg_lib.walk_node(g, n)) or isinstance(g.stmt[n], ast.Delete)]
+  int_branch = [n for n in g.nodes() if g.kind[n] == 'if' and 'slice' in unparse(
+      g.stmt[n].test) and 'isinstance' in unparse(g.stmt[n].test)]
+  ok = False
+  for n in _raising_if_nodes(g):
+    atoms = _bound_atoms(g.stmt[n].test)
+    upper = any(name == key and bound in {f'len({v})' for v in views} and (
+        (op is ast.Lt) or (op is ast.GtE)) for name, op, bound in atoms)
+    lower = any(name == key and bound == '0' for name, op, bound in atoms)
+    if upper and lower:
+      # reached only for int keys, and before every deletion on that path
+      ok = True
+  rs.check(ok, rule, f'{f.qualname}:int-key-range',
+           'an int key outside [0, len(positional view)) raises IndexError '
+           'before anything is deleted' if ok else
+           'an int key is not checked against the length of the positional '
+           'view: deleting an index past the end is a silent no-op and a '
+           'too-negative index deletes another element',
+           ctx.loc(f, f.node))
+  # (4) positional views used for index arithmetic agree
+  rule2 = 'AGREE.positional-view'
+  rs.declare(rule2, 'every function that does index arithmetic computes the '
+             'positional view with positional-or-keyword parameters included '
+             'and unset slots kept (fixed-length prefix)', 4)
+  for q in (f'{BUILDABLE}.__getitem__', f'{BUILDABLE}.__delitem__',
+            f'{BUILDABLE}._set_item_by_slice', f'{SIGINFO}.index_to_key'):
+    f = ctx.func(q)
+    calls = [c for c in ctx.calls(f) if isinstance(
+        c.func, ast.Attribute) and c.func.attr == 'transform_to_args_kwargs']
+    if not calls:
+      raise AnalysisError(f'{q}: positional view computation not found')
+    for c in calls:
+      flags = {}
+      names = ['arguments', 'include_pos_or_kw_in_args', 'include_no_value']
+      for i, a in enumerate(c.args):
+        if i < len(names):
+          flags[names[i]] = a
+      for k in c.keywords:
+        flags[k.arg] = k.value
+      both = all(isinstance(flags.get(n), ast.Constant) and
+                 flags[n].value is True
+                 for n in ('include_pos_or_kw_in_args', 'include_no_value'))
+      rs.check(both, rule2, f'{q}:`{norm_text(f, c, 40)}`',
+               'include_pos_or_kw_in_args=True, include_no_value=True' if both
+               else f'`{unparse(c)[:80]}` does not keep unset slots / '
+               'positional-or-keyword parameters in the view: its length is '
+               'then shorter than the list the caller indexes, so a negative '
+               'index or a slice bound lands on another parameter',
+               ctx.loc(f, c))
+
+
+def delete_discipline(ctx: Ctx, rs: RuleSet):
+  """__delitem__: unset fixed slots are skipped, deletions go from the highest
+
+  index down, and the involvement of the fixed prefix is decided by the lowest
+  index a slice touches.
+  """
+  rule = 'DOM.delete-discipline'
+  rs.declare(rule, 'deleting by index / slice tolerates unset fixed slots and '
+             'any slice direction', 3)
+  f = ctx.func(f'{BUILDABLE}.__delitem__')
+  g = ctx.cfg(f)
+  keys = roles.assigned_from(f, roles.call_of('index_to_key'))
+  for n in g.nodes():
+    for e in cfg_lib.walk_node(g, n):
+      if isinstance(e, ast.Call) and isinstance(
+          e.func, ast.Attribute) and e.func.attr == '_arguments_del_value' and (
+              e.args and isinstance(e.args[0], ast.Name) and
+              e.args[0].id in keys):
+        k = e.args[0].id
+        guards = [m for m in g.nodes() if g.kind[m] == 'if' and any(
+            isinstance(c, ast.Compare) and len(c.ops) == 1 and isinstance(
+                c.ops[0], ast.In) and unparse(c.left) == k and unparse(
+                    c.comparators[0]).endswith('.__arguments__')
+            for c in ast.walk(g.stmt[m].test))]
+        ok = any(g.dominated_by(n, {m}, labels=cfg_lib.NO_EXC) and
+                 n in g.reach([x for x, lab in g.succ[m] if lab == 'true'],
+                              labels=cfg_lib.NO_EXC) and
+                 n not in g.reach([x for x, lab in g.succ[m] if lab == 'false'],
+                                  blocked={m}, labels=cfg_lib.NO_EXC)
+                 for m in guards)
+        rs.check(ok, rule, f'{f.qualname}:fixed-slot-delete',
+                 f'`{unparse(e)}` only runs when `{k}` is set' if ok else
+                 f'`{unparse(e)}` runs for a fixed slot that may be unset: '
+                 'the primitive raises KeyError after higher slots were '
+                 'already deleted (`del cfg[0]` twice; `del cfg[:]` on a '
+                 'partly filled configuration), leaving a half-edited '
+                 'configuration', ctx.loc(f, e))
+  # deletions from the highest index down
+  loops = [n for n in walk_function(f.node) if isinstance(n, ast.For) and any(
+      isinstance(s, ast.Delete) for s in ast.walk(n))]
+  def _descending(it):
+    def is_sorted(e, rev):
+      return (isinstance(e, ast.Call) and unparse(e.func) == 'sorted' and
+              len(e.args) == 1 and rev == any(
+                  k.arg == 'reverse' and isinstance(k.value, ast.Constant) and
+                  k.value.value is True for k in e.keywords))
+    if is_sorted(it, True):
+      return True
+    if isinstance(it, ast.Call) and unparse(it.func) == 'reversed' and len(
+        it.args) == 1 and is_sorted(it.args[0], False):
+      return True
+    if isinstance(it, ast.Subscript) and unparse(it.slice) == '::-1' and (
+        is_sorted(it.value, False)):
+      return True
+    if isinstance(it, ast.Name):
+      defs = roles.defs_of(f, it.id)
+      return bool(defs) and all(_descending(d) for d in defs)
+    return False
+
+  ok = bool(loops) and all(_descending(L.iter) for L in loops)
+  rs.check(ok, rule, f'{f.qualname}:descending',
+           'indices are deleted from the highest down (sorted(..., '
+           'reverse=True)): earlier deletions do not shift later ones' if ok
+           else 'the placeholder deletions do not run over the indices sorted '
+           'in descending order: for a slice with a negative step (or any '
+           'unordered index list) an earlier deletion shifts the positions of '
+           'the later ones (IndexError / wrong elements removed)',
+           ctx.loc(f, loops[0] if loops else f.node))
+  # _set_item_by_slice: prefix involvement by the lowest touched index
+  f = ctx.func(f'{BUILDABLE}._set_item_by_slice')
+  starts = roles.assigned_from(f, lambda e: isinstance(e, ast.Attribute) and
+                               e.attr == 'var_positional_start')
+  lows = roles.assigned_from(f, lambda e: any(
+      isinstance(c, ast.Call) and unparse(c.func) == 'min'
+      for c in ast.walk(e)))
+  ok = False
+  for n in walk_function(f.node):
+    if isinstance(n, ast.If):
+      for name, op, bound in _bound_atoms(n.test):
+        if bound in starts and op is ast.Lt:
+          ok = name in lows
+  rs.check(ok, rule, f'{f.qualname}:lowest-index',
+           'the fixed prefix is involved iff the lowest index the slice '
+           'touches is below the *args position' if ok else
+           'whether the slice touches the fixed prefix is decided from the '
+           'slice start, which is the highest index for a negative step: '
+           '`cfg[::-1] = [...]` then skips the prefix writes',
+           ctx.loc(f, f.node))
+
+
+def shift_snapshot(ctx: Ctx, rs: RuleSet):
+  """DEFUSE: slice assignment over *args moves values read from a snapshot."""
+  rule = 'DEFUSE.shift-snapshot'
+  rs.declare(rule, 'values moved while the *args list grows or shrinks are '
+             'read from a copy made before the first write', 1)
+  f = ctx.func(f'{BUILDABLE}._set_item_by_slice')
+  g = ctx.cfg(f)
+  snaps = roles.assigned_from(f, lambda e: isinstance(e, ast.Call) and (
+      (isinstance(e.func, ast.Attribute) and e.func.attr == 'copy' and
+       unparse(e.func.value).endswith('.__arguments__')) or
+      (unparse(e.func) in ('dict', 'copy.copy') and e.args and
+       unparse(e.args[0]).endswith('.__arguments__'))))
+  writes = [n for n in g.nodes() if any(
+      isinstance(e, ast.Call) and isinstance(e.func, ast.Attribute) and
+      e.func.attr in ('_arguments_set_value', '_arguments_del_value')
+      for e in cfg_lib.walk_node(g, n))]
+  live_reads = []
+  for n in g.nodes():
+    if g.kind[n] not in ('stmt',):
+      continue
+    for e in cfg_lib.walk_node(g, n):
+      if isinstance(e, ast.Subscript) and isinstance(
+          e.ctx, ast.Load) and unparse(e.value).endswith('.__arguments__'):
+        # a read of the live store that can follow a write (inside the
+        # writing loops)
+        if any(n in g.reach([w], labels=cfg_lib.NO_EXC) for w in writes):
+          live_reads.append((n, e))
+  ok = bool(snaps) and not live_reads
+  rs.check(ok, rule, f'{f.qualname}:moved-values',
+           f'moved values are read from the snapshot {sorted(snaps)}' if ok
+           else (f'`{unparse(live_reads[0][1])}` reads the live argument store '
+                 'after earlier iterations have written to it: when the list '
+                 'grows (`cfg[4:4] = [x, y]`) a slot is overwritten before '
+                 'the value it held has been moved, and the tail repeats the '
+                 'inserted values' if live_reads else
+                 'no snapshot of the arguments is taken before the writes'),
+           ctx.loc(f, live_reads[0][1] if live_reads else f.node))
+
+
 def run(ctx: Ctx, rs: RuleSet, tier: str):
   p = ctx.p
   compaction_source(ctx, rs)
+  index_bounds(ctx, rs)
+  delete_discipline(ctx, rs)
+  shift_snapshot(ctx, rs)
   props = optional_props(ctx)
   if 'var_positional_start' not in props:
     raise AnalysisError('SignatureInfo.var_positional_start is no longer an '
